@@ -127,9 +127,21 @@ TPair ==
   /\ Count(46)
   /\ UNCHANGED <<ps, res, case, base>>
 
+\* sprites with very many layers (beyond 16 bits): the levels and visible flags as encoded, and what the loaded sprite
+\* reports for a sample of layers; parents and visibility are decided by the declarative forest notions on the levels
+TForest ==
+  /\ IsEvent("forest")
+  /\ LET e == Rec[l]
+         bad == {e.samples[k].i : k \in {k \in DOMAIN e.samples :
+                   LET s == e.samples[k] IN
+                   ~(s.id = s.i /\ s.parent = ParentL(e.levels, s.i) /\ s.visible = VisibleL(e.levels, e.vis, s.i))}}
+     IN /\ Verdict(e.nl = Len(e.levels) /\ Len(e.panics) = 0, <<case, "forest_layers", e.nl, Len(e.levels), e.panics>>)
+        /\ Verdict(bad = {}, <<case, "forest_sample", bad>>)
+  /\ UNCHANGED <<ps, res, case, base>>
+
 TDone == IsEvent("done") /\ ps' = Idle /\ UNCHANGED <<res, case, base>>
 
-TraceNext == TBegin \/ TFrame \/ TChunk \/ TEnd \/ TTwice \/ TObs \/ TPair \/ TDone
+TraceNext == TBegin \/ TFrame \/ TChunk \/ TForest \/ TEnd \/ TTwice \/ TObs \/ TPair \/ TDone
 TraceSpec == TraceInit /\ [][TraceNext]_tvars
 
 TraceAccepted ==
